@@ -140,7 +140,8 @@ class _Base(Space):
         out.count("tasks_executed", s.tasks)
         valid_zone = bool(np.isfinite(dn.drop(columns=["zone"]).to_numpy(dtype=float)).any())
         out.case(outcome=(str(zch), str(vch), dd.to_numpy(dtype=float)), nontrivial=nblocks > 1 and valid_zone, calls=1)
-        msg = table_diff(dd, dn)
+        # float32 value rasters: the NumPy reducers accumulate in float32, so agreement is to float32 rounding
+        msg = table_diff(dd, dn, rtol=1e-5 if values.dtype == np.float32 else 1e-9)
         out.ok()
         if msg:
             out.violation(rank, key, "%s: %s" % (fname, msg), case=case, observed=dd, expected=dn)
@@ -304,6 +305,37 @@ class Crosstab3DSpace(_Base):
             self.judge(out, rank, "crosstab", self.z, self.v3, self.zchs[a], vch, kw, layer_coords=["a", "b", "c"])
 
 
+class ValueDtypeSpace(_Base):
+    """value / zone dtypes: narrow integers whose sums and squares leave the dtype's range, float32, unsigned."""
+
+    def __init__(self, tier):
+        self.dts = [("int16", [200, 300, 10, 20, 250, 100, 30, 40]), ("uint8", [200, 255, 10, 20, 250, 100, 30, 40]),
+                    ("int32", [70000, 300, 10, 20, 50000, 100, 30, 40]), ("float32", [0.5, 300.25, 10, 20, 250, 100.75, 30, 40]),
+                    ("int8", [100, -120, 10, 20, 127, 100, 30, 40]), ("int64", [2 ** 31, 3, 10, 20, 2 ** 31 + 5, 100, 30, 40])]
+        self.zdts = ["int64", "int16", "float32"]
+        self.chs = [((2,), (2, 2)), ((1, 1), (4,)), ((1, 1), (1, 3))] + ([((2,), (1, 1, 1, 1)), ((1, 1), (2, 2))] if tier == "thorough" else [])
+        self.items = [("stats", {}), ("crosstab", {"agg": "count"})]
+        self.radices = [len(self.dts), len(self.zdts), len(self.chs), len(self.items)]
+        self.name = "value_and_zone_dtypes_2x4"
+        self.size = int(np.prod(self.radices))
+        self.weight = 3.0
+
+    def describe(self, rank):
+        di, zi, ci, ii = unrank_product(rank, self.radices)
+        return {"values_dtype": self.dts[di][0], "zones_dtype": self.zdts[zi], "chunks": self.chs[ci], "function": self.items[ii][0]}
+
+    def run(self, lo, hi, out):
+        for rank in range(lo, hi):
+            di, zi, ci, ii = unrank_product(rank, self.radices)
+            dt, vals = self.dts[di]
+            v = np.array(vals, dtype=dt).reshape(2, 4)
+            z = np.array([[1, 1, 2, 2], [1, 1, 2, 3]], dtype=self.zdts[zi])
+            fname, kw = self.items[ii]
+            if fname == "crosstab":
+                v = (v % 3).astype(dt)
+            self.judge(out, rank, fname, z, v, self.chs[ci], self.chs[ci], dict(kw))
+
+
 class BlockCountSpace(_Base):
     """number of blocks as a dimension: 1 x n rasters split into n one-cell blocks (n = 1..N) and small grids split into
     one-cell blocks, with one zone living only in the LAST block and one only in the FIRST (tree/grouped reductions over
@@ -447,6 +479,6 @@ def build(tier):
         sp.append(IndependentChunkSpace("2x4", "stats", {}, "default"))
         sp.append(IndependentChunkSpace("2x4", "crosstab", {"agg": "count"}, "count"))
         sp.append(IndependentChunkSpace("2x3", "crosstab", {"agg": "percentage"}, "percentage"))
-    sp += [StatsParamSpace(tier), CrosstabParamSpace(tier), Crosstab3DSpace(tier), BlockCountSpace(tier), ScheduleSpace(tier),
+    sp += [StatsParamSpace(tier), CrosstabParamSpace(tier), Crosstab3DSpace(tier), ValueDtypeSpace(tier), BlockCountSpace(tier), ScheduleSpace(tier),
            ThreadsSpace(tier)]
     return sp
